@@ -661,7 +661,8 @@ func (h *Sources) getLine(line *core.Line, cur *core.Cursor) (*core.Line, *core.
 			return line, cur
 		}
 
-		lh := hist[0]
+		// The main input line is the one at position -1.
+		lh := hist[-1]
 		if lh == nil || len(lh.items) == 0 {
 			return line, cur
 		}
